@@ -290,7 +290,7 @@ func cmdCheck(args []string) int {
 			jobs = append(jobs, job{o, o.Query(c.Spec, true), filepath.Join(work, fmt.Sprintf("%04d.smt2", nq))})
 		}
 	}
-	if len(genErrs) > 0 {
+	if len(genErrs) > 0 && *updateLock {
 		for _, e := range genErrs {
 			fmt.Fprintln(os.Stderr, "CHECK BROKEN (contracts do not attach to the code):", e)
 		}
@@ -389,6 +389,16 @@ func cmdCheck(args []string) int {
 				fails = append(fails, failure{n, "contract target missing (no obligation of this group is generated any more)", nil})
 			}
 		}
+	}
+	// a contract that no longer attaches to the code (renamed local in an invariant, removed
+	// parameter, ...) is reported as a violation of that function's contract: a silently
+	// detached contract is the vacuity hole to avoid (DESIGN.md 1.3)
+	for _, e := range genErrs {
+		fn := e
+		if i := strings.Index(e, ": "); i > 0 {
+			fn = e[:i]
+		}
+		fails = append(fails, failure{fn + "#contract-attaches", "contract target missing: " + e, nil})
 	}
 	var broken []string
 	coverOK := map[string]bool{}
